@@ -450,6 +450,66 @@ fn run_undecodable_values(cx: &mut CaseCx, _case: &Value) {
   cx.outcome("undecodable values survive");
 }
 
+
+/// JSON arrives through more doors than `from_str`: a reader, a byte slice, an already parsed `Value`, text in
+/// which `/` is written `\/` or characters as \u escapes, pretty-printed text - the restored value is the same
+fn run_json_doors(cx: &mut CaseCx, _case: &Value) {
+  cx.entropy(645);
+  let server = pp::Server::new(vec![1, 2]).expect("server");
+  // several requests so that the base64 text contains '/' and '+' somewhere
+  for i in 0..24u32 {
+    let (blinded, _) = pp::Client::blind(format!("json doors {}", i).as_bytes());
+    let ev = match server.eval(&blinded, 1, i % 2 == 0) {
+      Ok(e) => e,
+      Err(_) => continue,
+    };
+    let text = serde_json::to_string(&ev).expect("json");
+    let ptext = serde_json::to_string(&blinded).expect("json");
+    let want_out = *ev.output.as_bytes();
+    let want_pt = *blinded.as_bytes();
+    cx.nontrivial(i as u64);
+    let mut forms: Vec<(&str, String)> = vec![("as written", text.clone()), ("pretty-printed", serde_json::to_string_pretty(&ev).expect("json")), ("with '/' written as '\\/'", text.replace('/', "\\/")), ("with '=' written as \\u003d", text.replace('=', "\\u003d"))];
+    forms.dedup_by(|a, b| a.1 == b.1);
+    for (fname, f) in &forms {
+      let doors: Vec<(&str, Result<Result<pp::Evaluation, String>, String>)> = vec![
+        ("from_str", guard(|| serde_json::from_str::<pp::Evaluation>(f).map_err(|e| e.to_string()))),
+        ("from_slice", guard(|| serde_json::from_slice::<pp::Evaluation>(f.as_bytes()).map_err(|e| e.to_string()))),
+        ("from_reader", guard(|| serde_json::from_reader::<_, pp::Evaluation>(std::io::Cursor::new(f.as_bytes().to_vec())).map_err(|e| e.to_string()))),
+        ("from_value", guard(|| serde_json::from_str::<Value>(f).map_err(|e| e.to_string()).and_then(|v| serde_json::from_value::<pp::Evaluation>(v).map_err(|e| e.to_string())))),
+      ];
+      for (door, r) in doors {
+        cx.eval();
+        match r {
+          Ok(Ok(e2)) if *e2.output.as_bytes() == want_out && e2.proof.is_some() == ev.proof.is_some() => cx.count("json_doors_ok", 1),
+          other => {
+            cx.viol("C15/evaluation-json-load-failed/door", format!("an Evaluation's own JSON ({}) does not restore through serde_json::{}: {:?}", fname, door, other.map(|r| r.map(|_| "a different value").map_err(|e| e.chars().take(100).collect::<String>()))), json!({"form": fname, "door": door}));
+            return;
+          }
+        }
+      }
+    }
+    let pforms: Vec<(&str, String)> = vec![("as written", ptext.clone()), ("with '/' written as '\\/'", ptext.replace('/', "\\/")), ("pretty-printed", serde_json::to_string_pretty(&blinded).expect("json"))];
+    for (fname, f) in &pforms {
+      let doors: Vec<(&str, Result<Result<pp::Point, String>, String>)> = vec![
+        ("from_str", guard(|| serde_json::from_str::<pp::Point>(f).map_err(|e| e.to_string()))),
+        ("from_reader", guard(|| serde_json::from_reader::<_, pp::Point>(std::io::Cursor::new(f.as_bytes().to_vec())).map_err(|e| e.to_string()))),
+        ("from_value", guard(|| serde_json::from_str::<Value>(f).map_err(|e| e.to_string()).and_then(|v| serde_json::from_value::<pp::Point>(v).map_err(|e| e.to_string())))),
+      ];
+      for (door, r) in doors {
+        cx.eval();
+        match r {
+          Ok(Ok(p2)) if *p2.as_bytes() == want_pt => cx.count("json_doors_ok", 1),
+          other => {
+            cx.viol("C15/point-json-load-failed/door", format!("a Point's own JSON ({}) does not restore through serde_json::{}: {:?}", fname, door, other.map(|r| r.map(|_| "a different value").map_err(|e| e.chars().take(100).collect::<String>()))), json!({"form": fname, "door": door}));
+            return;
+          }
+        }
+      }
+    }
+  }
+  cx.outcome("json doors");
+}
+
 /// proof scalars at the group-order boundary; every write-failure point of the JSON serialisation
 fn run_boundaries(cx: &mut CaseCx, _case: &Value) {
   use curve25519_dalek::scalar::Scalar;
@@ -742,6 +802,13 @@ pub fn spec() -> PropSpec {
         gen: |_| vec![json!({})],
         run: run_undecodable_values,
         min_counts: &[("points_restored_equal", 6)],
+      },
+      Check {
+        name: "json-doors",
+        rule: "24 evaluations (with and without proof) and their request points: the JSON the library writes - as written, pretty-printed, with '/' written as '\\/', with '=' written as a \\u escape - restores to the same value through from_str, from_slice, from_reader and from_value (JSON text that travels through a parser, a stream or an escaping encoder is still that JSON)",
+        gen: |_| vec![json!({})],
+        run: run_json_doors,
+        min_counts: &[("json_doors_ok", 400)],
       },
       Check {
         name: "scalar-boundaries-and-write-failures",
